@@ -886,6 +886,29 @@ pub fn run_c13(run: &Run) {
     } else {
         run.add_family(FamilyCov { name: "adf-bdd --counter nai".into(), size: 256, done: 0, exhaustive: false, note: "ADF_BDD_CLI not set: CLI clause skipped".into() });
     }
+    // once more with a logger that accepts TRACE records
+    crate::report::trace_logging(true);
+    for n in 1..=3usize {
+        let total = (full(n) as u64 + 1) * 2;
+        let res = run.par_family(
+            &format!("all functions of {} variables x 2 writers with trace logging switched on", n),
+            total,
+            || 0u64,
+            |st, k| {
+                let tt = (k / 2) as TT;
+                let w = if k % 2 == 0 { 0 } else { 5 };
+                *st += 1;
+                for (kind, msg) in fn_case(tt, n, w) {
+                    run.violation(&format!("trace-logging:{}", kind), format!("{} (function {:#x} over {} variables; a logger accepting TRACE records is installed)", msg, tt, n), json!({"type": "function", "tt": tt, "vars": n, "writer": w, "trace_logging": true}));
+                }
+            },
+            &|k| json!({"type": "function", "tt": k / 2, "vars": n, "writer": if k % 2 == 0 { 0 } else { 5 }, "trace_logging": true}),
+        );
+        for st in res {
+            run.add_counts(st, st * 20, st, 0);
+        }
+    }
+    crate::report::trace_logging(false);
     run.extra("states_are", json!("diagram stores / functions / ADFs whose nodes are queried"));
     run.extra("transitions_are", json!("public queries compared with independent recounts (approximate count for the per-function sweep)"));
 }
